@@ -20,7 +20,8 @@ m = {
     "engines": [{
         "name": "lean-proof+correspondence", "path": "check", "serves_properties": sorted(PROPS),
         "kind_free_text": "Lean 4 theorems over executable models (lean/PalomaModel), tied to /repo on every run by a Go correspondence harness "
-                          "(harness/, line protocol to the compiled Lean driver lean/DriverMain.lean), implementation-side monitors and regenerated facts (extract/)",
+                          "(harness/, line protocol to the compiled Lean driver lean/DriverMain.lean), implementation-side monitors, facts regenerated from the typed source (extract/ -> Gen/*.lean: tables consumed by decide / rfl obligations) "
+                          "and pure cores TRANSLATED from Go to Lean on every run (extract/translate.go -> Gen/Translated.lean, proved equal to the model functions)",
     }],
     "checks": [],
     "not_applicable": [],
